@@ -49,37 +49,83 @@ def run(ctx):
 
 def key_rule(ctx, d1, f, cname):
     cons = '%s._get_property' % cname
-    ps, _ = run_paths(f.node, max_paths=2000)
+    fnode = ctx.prog.normal_form(f)       # helpers inlined, conditional expressions as statements
+    ps, _ = run_paths(fnode, max_paths=4000)
     multi = cname == 'MultiStream'
     # --- roles of the locals, discovered from the structure
-    unp = [n for n in walk_no_nested(f.node) if isinstance(n, ast.Assign) and src(n.value) == 'self._property_cache_key'
+    unp = [n for n in walk_no_nested(fnode) if isinstance(n, ast.Assign) and src(n.value) == 'self._property_cache_key'
            and isinstance(n.targets[0], ast.Tuple) and len(n.targets[0].elts) == 2]
     if not unp:
         d1.fail(cons, 'key-source', 'the previous key is not read from self._property_cache_key', f, f.node)
         return
     LAST_LIT, LAST_COMP = (e.id for e in unp[0].targets[0].elts)
-    LIT = COMPKEY = None
-    hit = None
-    for n in walk_no_nested(f.node):
-        if isinstance(n, ast.If) and isinstance(n.test, ast.BoolOp) and isinstance(n.test.op, ast.And):
-            pairs = {}
-            for v in n.test.values:
-                if isinstance(v, ast.Compare) and isinstance(v.ops[0], ast.Eq) and isinstance(v.left, ast.Name) and isinstance(v.comparators[0], ast.Name):
-                    pairs[v.comparators[0].id] = v.left.id
-                    pairs.setdefault(v.left.id, v.comparators[0].id)
-            if LAST_LIT in pairs and LAST_COMP in pairs:
-                LIT, COMPKEY, hit = pairs[LAST_LIT], pairs[LAST_COMP], n
-    if hit is None:
+    pairs = {}
+    for n in walk_no_nested(fnode):
+        if isinstance(n, ast.Compare) and len(n.ops) == 1 and isinstance(n.ops[0], (ast.Eq, ast.NotEq)) and isinstance(n.left, ast.Name) \
+                and isinstance(n.comparators[0], ast.Name):
+            a, b = n.left.id, n.comparators[0].id
+            if b in (LAST_LIT, LAST_COMP):
+                pairs[b] = a
+            elif a in (LAST_LIT, LAST_COMP):
+                pairs[a] = b
+    LIT, COMPKEY = pairs.get(LAST_LIT), pairs.get(LAST_COMP)
+    if LIT is None or COMPKEY is None:
         d1.fail(cons, 'hit-test', 'the hit test does not compare both parts of the remembered key', f, f.node)
         return
-    memo_names = {t.id for n in walk_no_nested(f.node) if isinstance(n, ast.Assign) and src(n.value) == 'self._property_cache'
+    memo_names = {t.id for n in walk_no_nested(fnode) if isinstance(n, ast.Assign) and src(n.value) == 'self._property_cache'
                   for t in n.targets if isinstance(t, ast.Name)} | {'self._property_cache'}
-    clears = hit.orelse and any(isinstance(x, ast.Call) and isinstance(x.func, ast.Attribute) and x.func.attr == 'clear'
-                                and src(x.func.value) in memo_names for x in ast.walk(hit.orelse[0]))
-    inner = [n for n in hit.body if isinstance(n, ast.If) and isinstance(n.test, ast.Compare) and isinstance(n.test.ops[0], ast.In)
-             and src(n.test.comparators[0]) in memo_names]
-    if clears and inner:
+
+    def ev(t, scen):
+        """three-valued value of a test when literal / composition parts (do not) match and the name is (not) in the memo"""
+        if isinstance(t, ast.UnaryOp) and isinstance(t.op, ast.Not):
+            v = ev(t.operand, scen)
+            return None if v is None else not v
+        if isinstance(t, ast.BoolOp):
+            vs = [ev(v, scen) for v in t.values]
+            if isinstance(t.op, ast.And):
+                return False if any(v is False for v in vs) else (True if all(v is True for v in vs) else None)
+            return True if any(v is True for v in vs) else (False if all(v is False for v in vs) else None)
+        if isinstance(t, ast.Compare) and len(t.ops) == 1:
+            a, b, op = src(t.left), src(t.comparators[0]), t.ops[0]
+            if isinstance(op, (ast.Eq, ast.NotEq)):
+                which = 'lit' if {a, b} == {LIT, LAST_LIT} else 'comp' if {a, b} == {COMPKEY, LAST_COMP} else None
+                if which and scen.get(which) is not None:
+                    return scen[which] if isinstance(op, ast.Eq) else not scen[which]
+            if isinstance(op, (ast.In, ast.NotIn)) and a == f.params[1] and b in memo_names and scen.get('in') is not None:
+                return scen['in'] if isinstance(op, ast.In) else not scen['in']
+        return None
+
+    def excluded(p, scen):
+        return any(v is not None and v != taken for v, taken in ((ev(t, scen), taken) for t, taken in p.conds if not isinstance(t, str)))
+
+    def mentions_key(p):
+        return any(isinstance(x, ast.Name) and x.id in (LAST_LIT, LAST_COMP) for t, taken in p.conds if not isinstance(t, str) for x in ast.walk(t))
+
+    hit_bad = clear_bad = None
+    n_hit = 0
+    for p in ps:
+        if p.raised or p.ret is None or not mentions_key(p):
+            continue
+        is_miss = any(e.kind == 'call' and e.target.startswith('getattr(self.mixture') for e in p.events)
+        if not is_miss:
+            n_hit += 1
+            for scen in ({'lit': False, 'comp': True, 'in': True}, {'lit': True, 'comp': False, 'in': True}, {'lit': True, 'comp': True, 'in': False}):
+                if not excluded(p, scen):
+                    hit_bad = scen
+        else:
+            mismatch_possible = not excluded(p, {'lit': False, 'comp': True}) or not excluded(p, {'lit': True, 'comp': False})
+            cleared = any(e.kind == 'call' and e.target in ('self._property_cache.clear',) + tuple(m + '.clear' for m in memo_names) for e in p.events)
+            if mismatch_possible and not cleared:
+                clear_bad = p
+    hit = unp[0]
+    if not n_hit:
+        d1.fail(cons, 'hit-test', 'the hit test does not compare both parts of the remembered key', f, f.node)
+        return
+    if hit_bad is None and clear_bad is None:
         d1.ok(cons, 'hit requires literal AND composition to match and the name to be cached; any mismatch clears the memo', f, hit)
+    elif hit_bad is not None and (hit_bad.get('lit') is False or hit_bad.get('comp') is False):
+        d1.fail(cons, 'hit-test', 'the hit test does not compare both parts of the remembered key', f, f.node)
+        return
     else:
         d1.fail(cons, 'hit-test', 'a key mismatch does not clear the memo (or a hit does not require the name to be cached)', f, hit)
     n_miss = 0
@@ -97,7 +143,7 @@ def key_rule(ctx, d1, f, cname):
         lit_txt = [x.pretty() for x in lit]
         tag = 'nophase' if nophase else 'phase'
         tc_ok = 'self._thermal_condition._T' in lit_txt and 'self._thermal_condition._P' in lit_txt
-        star = [a for a in c.node.args if isinstance(a, ast.Starred)]
+        star = [a for a in c.node.args if isinstance(a, ast.Starred) and not (isinstance(a.value, ast.Name) and a.value.id in p.tup)]
         def _resolved(x):
             try:
                 return p.lin.form(x).pretty()
@@ -119,7 +165,7 @@ def key_rule(ctx, d1, f, cname):
             else:
                 d1.fail(cons + '[%s]' % tag, 'phase-not-in-key', 'the phase passed to the model is not the one recorded in the key', f, c.stmt)
         # composition: the key is derived from the very composition object that is passed to the model
-        ckdef = [n for n in walk_no_nested(f.node) if isinstance(n, ast.Assign) and src(n.targets[0]) == COMPKEY]
+        ckdef = [n for n in walk_no_nested(fnode) if isinstance(n, ast.Assign) and src(n.targets[0]) == COMPKEY]
         comp_names = {x.id for n in ckdef for x in ast.walk(n.value) if isinstance(x, ast.Name)}
         comp_forms = [env[k] for k in comp_names if k in env and env[k].pretty().startswith('self._imol.data*')]
         comp_txt = comp_forms[0].pretty() if comp_forms else ''
@@ -139,7 +185,7 @@ def key_rule(ctx, d1, f, cname):
         raise AnalysisError('%s: miss paths not found' % cons)
     d1.ok(cons, 'last key is read from self._property_cache_key', f, unp[0])
     for nm in (LAST_LIT, LAST_COMP):
-        defs = [x for x in walk_no_nested(f.node) if isinstance(x, ast.Name) and x.id == nm and isinstance(x.ctx, ast.Store)]
+        defs = [x for x in walk_no_nested(fnode) if isinstance(x, ast.Name) and x.id == nm and isinstance(x.ctx, ast.Store)]
         if len(defs) == 1:
             d1.ok(cons, 'a remembered key part is compared exactly as stored (single definition)', f, unp[0])
         else:
